@@ -221,6 +221,11 @@ def build(tier, rng):
             yield "context-copied", "-ctx-upd", (lambda s, **kw: c4.hash(s, **kw)), (lambda s, hs, **kw: c4.verify(s, hs, **kw))
             c5 = CryptContext(schemes=[name], **{f"{name}__truncate_error": False}, **rounds_kw).copy(**{f"{name}__truncate_error": True})
             yield "context-scheme-copied", "-ctx-upd", (lambda s, **kw: c5.hash(s, **kw)), (lambda s, hs, **kw: c5.verify(s, hs, **kw))
+            # the policy switched on for ONE user category only, through the category-wide (wildcard) option
+            c6 = CryptContext(schemes=[name], admin__all__truncate_error=True, **rounds_kw)
+            yield "context-category-wildcard", "-ctx-cat", (lambda s, **kw: c6.hash(s, category="admin", **kw)), (lambda s, hs, **kw: c6.verify(s, hs, category="admin", **kw))
+            c7 = CryptContext(schemes=[name], **{f"admin__{name}__truncate_error": True}, **rounds_kw)
+            yield "context-category-scheme", "-ctx-cat", (lambda s, **kw: c7.hash(s, category="admin", **kw)), (lambda s, hs, **kw: c7.verify(s, hs, category="admin", **kw))
 
         def modes_off():
             yield "default", "", (lambda s, **kw: hc.hash(s, **kw)), (lambda s, hs, **kw: hc.verify(s, hs, **kw))
